@@ -22,6 +22,7 @@ func checkC01(c *Ctx) {
 	m.checkDoList()
 	m.checkKeySites()
 	m.checkConfinement()
+	checkNotRunningErrors(c) // every cache API call goes through the loop and returns the loop's reply (no fast path around the owner)
 	c.floor("T-TABLE(doUpdate)", 8, "doUpdate has 9 paths")
 	c.floor("T-TABLE(doSync.item)", 8, "doSync item step has 9 in-loop paths")
 	c.floor("T-TABLE(doSync.sweep)", 3, "sweep: exit, in set, not in set")
@@ -405,6 +406,7 @@ func checkC15(c *Ctx) {
 	m.checkDoList()
 	m.checkRunLoop()
 	m.checkKeySites()
+	checkNotRunningErrors(c)
 	c.floor("T-CONFINE(_cache)", 8, "field accessors and call sites")
 	c.floor("T-BLOCK(cache-handlers)", 6, "6 handler/helper functions")
 }
